@@ -206,7 +206,7 @@ impl Prop for C14 {
         let cases = tier.pick(400, 6000);
         let corpus_ref = &corpus;
         ctx.run_shards(64, cases, |cc: &mut CaseCtx<'_>, ch: &mut Choices| {
-            if ch.chance(1, 4) {
+            if ch.chance(1, 2) {
                 return felt_vector_case(cc, ch, corpus_ref);
             }
             let item = &corpus_ref[ch.below(corpus_ref.len())];
@@ -286,53 +286,214 @@ fn judge_felts(felts: Vec<BigUint>) -> Result<bool, (String, String)> {
 }
 
 fn valid_felts(item: &SierraItem) -> Option<Vec<BigUint>> {
-    let r = panics::catch(|| ContractClass::new(&item.program, ContractEntryPoints::default(), None, Default::default())).ok()?.ok()?;
+    use cairo_lang_sierra_generator::replace_ids::SierraIdReplacer;
+    let c = panics::catch(|| cairo_lang_sierra_generator::canonical_id_replacer::CanonicalReplacer::from_program(&item.program).apply(&item.program)).ok()?;
+    let r = panics::catch(|| ContractClass::new(&c, ContractEntryPoints::default(), None, Default::default())).ok()?.ok()?;
     Some(r.sierra_program.into_iter().map(|x| x.value).collect())
 }
 
-fn felt_vector_case(cc: &mut CaseCtx<'_>, ch: &mut Choices, corpus: &[SierraItem]) -> Verdict {
-    let prime: BigUint = (BigUint::from(1u8) << 251) + (BigUint::from(17u8) << 192) + BigUint::from(1u8);
-    let mut felts: Vec<BigUint> = if ch.chance(1, 5) {
-        let n = ch.below(40);
-        (0..n).map(|_| if ch.bool() { BigUint::from(ch.below(20)) } else { BigUint::from(ch.u64()) }).collect()
-    } else {
-        let item = &corpus[ch.below(corpus.len())];
-        match valid_felts(item) {
-            Some(f) => f,
-            None => {
-                cc.stats().count("felts:origin_not_serialisable");
-                return Verdict::Skip("origin not serialisable");
-            }
-        }
-    };
-    let k = ch.below(5);
-    for _ in 0..k {
-        if felts.is_empty() {
-            felts.push(BigUint::from(ch.below(5)));
-            continue;
-        }
-        let i = ch.below(felts.len());
-        match ch.below(8) {
-            0 => felts[i] += 1u8,
-            1 => {
-                if felts[i] > BigUint::from(0u8) {
-                    felts[i] -= 1u8;
-                }
-            }
-            2 => felts.truncate(i),
-            3 => {
-                let x = felts[i].clone();
-                felts.insert(i, x);
-            }
-            4 => felts[i] = BigUint::from(u64::MAX),
-            5 => felts[i] = &prime - 1u8,
-            6 => {
-                let j = ch.below(felts.len());
-                felts.swap(i, j);
-            }
-            _ => felts[i] = BigUint::from(ch.below(300)),
+/// Own implementation of the code-book compression (the crate's is private): values -> felts.
+fn my_compress(values: &[BigUint]) -> Vec<BigUint> {
+    let mut code: Vec<&BigUint> = vec![];
+    let mut index: std::collections::HashMap<&BigUint, usize> = Default::default();
+    for v in values {
+        if !index.contains_key(v) {
+            index.insert(v, code.len());
+            code.push(v);
         }
     }
+    let padded = std::cmp::max(256, code.len()).next_power_of_two();
+    let mut out = vec![BigUint::from(code.len()), BigUint::from(padded - code.len())];
+    out.extend(code.iter().map(|v| (*v).clone()));
+    out.push(BigUint::from(values.len()));
+    let wpf = words_per_felt(padded);
+    for chunk in values.chunks(wpf) {
+        let mut packed = BigUint::from(0u8);
+        for v in chunk.iter().rev() {
+            packed *= padded;
+            packed += index[v];
+        }
+        out.push(packed);
+    }
+    out
+}
+
+fn words_per_felt(padded: usize) -> usize {
+    let prime: BigUint = (BigUint::from(1u8) << 251) + (BigUint::from(17u8) << 192) + BigUint::from(1u8);
+    let mut count = 0;
+    let mut max = BigUint::from(padded);
+    while max < prime {
+        max *= padded;
+        count += 1;
+    }
+    count
+}
+
+/// Own decompression of a *valid* compressed vector (None on anything unexpected).
+fn my_decompress(felts: &[BigUint]) -> Option<Vec<BigUint>> {
+    use num_traits::ToPrimitive;
+    let code_size = felts.first()?.to_usize()?;
+    let padding = felts.get(1)?.to_usize()?;
+    let code = felts.get(2..2 + code_size)?;
+    let n = felts.get(2 + code_size)?.to_usize()?;
+    let packed = felts.get(3 + code_size..)?;
+    let padded = code_size + padding;
+    if padded < 256 || !padded.is_power_of_two() {
+        return None;
+    }
+    let wpf = words_per_felt(padded);
+    let mut out = vec![];
+    for p in packed {
+        let mut x = p.clone();
+        for _ in 0..wpf {
+            if out.len() == n {
+                break;
+            }
+            let w = (&x % padded).to_usize()?;
+            x /= padded;
+            out.push(code.get(w)?.clone());
+        }
+    }
+    if out.len() == n { Some(out) } else { None }
+}
+
+struct FeltOrigin {
+    header: Vec<BigUint>,
+    compressed: Vec<BigUint>,
+    stream: Vec<BigUint>,
+}
+
+fn felt_origins(corpus: &[SierraItem]) -> &'static Vec<FeltOrigin> {
+    static CELL: std::sync::OnceLock<Vec<FeltOrigin>> = std::sync::OnceLock::new();
+    CELL.get_or_init(|| {
+        let mut out = vec![];
+        for item in corpus {
+            if let Some(f) = valid_felts(item) {
+                if f.len() < 8 {
+                    continue;
+                }
+                let (header, compressed) = f.split_at(6);
+                let d = my_decompress(compressed);
+                if std::env::var("VERIF_DBG").is_ok() {
+                    eprintln!("origin {} felts={} decomp={:?} same={:?}", item.origin, f.len(), d.as_ref().map(|x| x.len()), d.as_ref().map(|x| my_compress(x) == compressed));
+                }
+                if let Some(stream) = d {
+                    // The own codec must reproduce the crate's bytes, or it is not used.
+                    if my_compress(&stream) == compressed {
+                        out.push(FeltOrigin { header: header.to_vec(), compressed: compressed.to_vec(), stream });
+                    }
+                }
+            }
+        }
+        out
+    })
+}
+
+fn special_value(ch: &mut Choices) -> BigUint {
+    let prime: BigUint = (BigUint::from(1u8) << 251) + (BigUint::from(17u8) << 192) + BigUint::from(1u8);
+    match ch.below(12) {
+        0 => BigUint::from(0u8),
+        1 => BigUint::from(1u8),
+        2 => BigUint::from(u64::MAX),
+        3 => BigUint::from(1u128 << 63),
+        4 => BigUint::from(u32::MAX),
+        5 => &prime - 1u8,
+        6 => (BigUint::from(1u8) << 248) - 1u8,
+        7 => (BigUint::from(1u8) << 251) - 1u8,
+        8 => BigUint::from(u128::MAX),
+        9 => BigUint::from(ch.below(300)),
+        10 => BigUint::from(ch.below(20)),
+        _ => BigUint::from(ch.u64()),
+    }
+}
+
+fn mutate_values(ch: &mut Choices, v: &mut Vec<BigUint>, k: usize, front_bias: bool) {
+    for _ in 0..k {
+        if v.is_empty() {
+            v.push(special_value(ch));
+            continue;
+        }
+        // Half of the positions are drawn from the first 24 values (counts, tables, headers).
+        let i = if front_bias && ch.bool() { ch.below(v.len().min(24)) } else { ch.below(v.len()) };
+        match ch.below(9) {
+            0 => v[i] += 1u8,
+            1 => {
+                if v[i] > BigUint::from(0u8) {
+                    v[i] -= 1u8;
+                }
+            }
+            2 => v.truncate(i),
+            3 => {
+                let x = v[i].clone();
+                v.insert(i, x);
+            }
+            4 => {
+                v.remove(i);
+            }
+            5 => {
+                let j = ch.below(v.len());
+                v.swap(i, j);
+            }
+            6 => {
+                let x = special_value(ch);
+                v.insert(i, x);
+            }
+            _ => v[i] = special_value(ch),
+        }
+    }
+}
+
+fn felt_vector_case(cc: &mut CaseCtx<'_>, ch: &mut Choices, corpus: &[SierraItem]) -> Verdict {
+    let origins = felt_origins(corpus);
+    let mode = if origins.is_empty() { 0 } else { ch.weighted(&[1, 3, 6, 2]) };
+    let k = 1 + ch.below(4);
+    let felts: Vec<BigUint> = match mode {
+        0 => {
+            let n = ch.below(40);
+            (0..n).map(|_| if ch.bool() { BigUint::from(ch.below(20)) } else { special_value(ch) }).collect()
+        }
+        1 => {
+            // Mutation of the compressed representation (code book header, code words, packing).
+            let o = &origins[ch.below(origins.len())];
+            let mut c = o.compressed.clone();
+            if ch.bool() {
+                // Target the packed tail and the three size fields.
+                for _ in 0..k {
+                    let code_size = o.compressed[0].to_u64_digits().first().copied().unwrap_or(0) as usize;
+                    let targets = [0usize, 1, 2 + code_size];
+                    let i = if ch.bool() { targets[ch.below(3)] } else { (3 + code_size + ch.below(c.len().saturating_sub(3 + code_size).max(1))).min(c.len() - 1) };
+                    c[i] = match ch.below(4) {
+                        0 => &c[i] + 1u8,
+                        1 => special_value(ch),
+                        2 => (BigUint::from(1u8) << (8 * (1 + ch.below(31)))) - 1u8,
+                        _ => &c[i] | (BigUint::from(255u8) << (8 * ch.below(31))),
+                    };
+                }
+            } else {
+                mutate_values(ch, &mut c, k, true);
+            }
+            let mut f = o.header.clone();
+            f.extend(c);
+            f
+        }
+        2 => {
+            // Mutation of the uncompressed value stream, then re-compression.
+            let o = &origins[ch.below(origins.len())];
+            let mut st = o.stream.clone();
+            mutate_values(ch, &mut st, k, true);
+            let mut f = o.header.clone();
+            f.extend(my_compress(&st));
+            f
+        }
+        _ => {
+            // Version header / whole-vector mutation.
+            let o = &origins[ch.below(origins.len())];
+            let mut f = o.header.clone();
+            f.extend(o.compressed.iter().cloned());
+            mutate_values(ch, &mut f, k, true);
+            f
+        }
+    };
     let art = json!({"felts": felts.iter().map(|f| f.to_string()).collect::<Vec<_>>()});
     cc.start(|| art.clone());
     match judge_felts(felts.clone()) {
@@ -340,10 +501,11 @@ fn felt_vector_case(cc: &mut CaseCtx<'_>, ch: &mut Choices, corpus: &[SierraItem
             let st = cc.stats();
             st.eval();
             st.count("felt_vectors");
+            st.count(["felt_vectors:random", "felt_vectors:compressed_layer_mutant", "felt_vectors:value_stream_mutant", "felt_vectors:whole_vector_mutant"][mode]);
             if decoded {
-                st.count("felt_vectors_decoded");
-                st.nontrivial(hash_str(&art.to_string()));
+                st.count("felt_vectors_decoded_to_a_program");
             }
+            st.nontrivial(hash_str(&art.to_string()));
             Verdict::Pass
         }
         Err((sig, what)) => Verdict::fail(sig, what, art),
@@ -356,4 +518,23 @@ fn replay_felts(a: &Value) -> Verdict {
         Ok(_) => Verdict::Pass,
         Err((sig, what)) => Verdict::fail(sig, what, a.clone()),
     }
+}
+
+pub fn debug_felts() {
+    let corpus = sierra::load_corpus(400);
+    let mut none = 0;
+    for item in &corpus {
+        match panics::catch(|| ContractClass::new(&item.program, ContractEntryPoints::default(), None, Default::default())) {
+            Ok(Ok(_)) => {}
+            Ok(Err(e)) => {
+                none += 1;
+                if none < 6 {
+                    eprintln!("not serialisable {}: {e}", item.origin);
+                }
+            }
+            Err(p) => eprintln!("panic {}", p.loc),
+        }
+    }
+    let o = felt_origins(&corpus);
+    eprintln!("corpus {} not serialisable {} origins {}", corpus.len(), none, o.len());
 }
